@@ -45,6 +45,10 @@ def sweeps(tier):
     out.append(sweep(money + tv[:4] + [tv[8]], [[], ['html_quote'], ['thousands_commas'], ['upper'], ['url_quote']],
                      fmts=('whole-dollars', 'dollars-and-cents', 'dollars-with-commas', 'dollars-and-cents-with-commas'),
                      sizes=(-1, 5, 30), nulls=(False, True), forms=('name', 'expr')))
+    # integer conversions of the C-style format (the %(name)fmt syntax): hexadecimal in the case written, zero padding
+    ints = [other('num', x, False) for x in ('0', '9', '10', '255', '4095', '1234567', '48879', '3054')]
+    out.append(sweep(ints, [[], ['lower'], ['upper'], ['html_quote'], ['thousands_commas']], cfmts=('X', 'x', '08X', '05d', 's'),
+                     sizes=(-1, 3)))
     # untrusted (tainted) values go through the same modifier functions: the laws of C15 hold for them too
     tt = [text("<b>x' OR 1=1 --\x00\x1a\r", True), text("it's <i>a b_c 1234567.5", True), text("<'>%3C%27+x", True)]
     out.append(sweep(tt, singles + [['sql_quote', 'upper'], ['sql_quote', 'spacify'], ['url_unquote', 'sql_quote'],
